@@ -131,6 +131,14 @@ CLAIMED["C05"] = ("DESIGN.md §4 C05",
     "trusted: pysym rope model; snappy contract stub (compress bound, uncompress inverse); outside: protobuf/snappy bytes, "
     "segment layer (ArchiveInfo parsing), fixture archives, unknown-field preservation")
 
+CLAIMED["C09"] = ("DESIGN.md §4 C09",
+    "The real node_to_ref -> CellRange.__str__ -> xl_rowcol_to_cell chain is run for symbolic host cells and stored "
+    "offsets/coordinates anywhere inside the table limits with all absolute-flag combinations (single cells and rectangles), "
+    "and the printed text is read back by an independent A1 parser; cross-table references over 2 sheets x 2 tables with "
+    "symbolic names resolve to exactly the stored table.",
+    "trusted: pysym; formula nodes are attribute bags; model stub for names; no header labels; outside: named (header) "
+    "references, row/column spans, uuid map from archives, cache invalidation history")
+
 NOT_APPLICABLE = {}
 
 
